@@ -15,7 +15,7 @@ PY = "/venv/bin/python"
 # property id -> (technique, level text, level note, design ref)
 CLAIMS = {
     "C01": (
-        "abstract interpretation of from_kd_buf over byte ranges of the input + constant evaluation of format/masks",
+        "abstract interpretation of from_kd_buf over byte ranges of the input + constant evaluation of format/masks; module-level memo tables proved pure (value a function of the key) are read through",
         "Decided in full modulo the trusted base: the struct format is evaluated to a field layout and compared with "
         "XNU's 64-bit kd_buf, every output field of the Kevent constructor is traced to the exact byte range (or masked "
         "range) it may depend on, the two masks are evaluated and shown to partition 32 bits as 30+2, and the sizes are "
@@ -58,7 +58,7 @@ CLAIMS = {
         "append-then-pop-then-decode on END, append-and-decode on NONE/ALL, the append loop of each action entered for every record the action gets, domain selection by the trace-family registry, "
         "totality of the qualifier table, the generator yielding exactly the non-None results in order, and - as an ownership "
         "rule over all registered decoders and the parser's other methods - nothing else writes the window tables, and every decoder "
-        "returns a trace on every path that does not test the record's own qualifier; K9: whether parse_event_list decodes a list depends on the list only through its first record's code; K12: the record list a trace carries is the window itself or an unconditional record-by-record copy of it). The window contents "
+        "returns a trace on every path that does not test the record's own qualifier; K9: whether parse_event_list decodes a list depends on the list only through its first record's code; K6 the pairing domain is chosen by the trace-family registry and nothing else; K12: the record list a trace carries is the window itself or an unconditional record-by-record copy of it). The window contents "
         "as a function of an arbitrary history are not decided: each K is such that breaking it changes the traces of some "
         "history, which the seeded-fault self-test demonstrates.",
         "Histories themselves are not enumerated (that would be a different technique).",
@@ -69,7 +69,7 @@ CLAIMS = {
         "Decides the necessary condition for schedule independence: the only state that outlives one decoder invocation is "
         "either keyed first by the emitting thread's id or one of the frozen by-design global tables; no scalar slot is "
         "written by one invocation and read by another; no module/class-level object is mutated; a name record files its text "
-        "under the pid of the emitting thread's own pending data record, and no decoder does anything else to the name table (both taken over from C14/R4); no constructor keeps a mutable default argument. Equality of per-thread "
+        "under the pid of the emitting thread's own pending data record, and no decoder does anything else to the name table (both taken over from C14/R4); no constructor keeps a mutable default argument; a one-entry cache kept in parser slots is right only when every input the remembered value is computed from is compared before reuse; tables proved to be pure memos are not state. Equality of per-thread "
         "results across interleavings is argued from this, not checked.",
         "The by-design tables (threads_pids, pids_names, global_strings, tids_names, dyld_*) are excluded by the property's own "
         "quantifier; they are frozen in the rule with reasons.",
@@ -94,7 +94,7 @@ CLAIMS = {
         "each access is shown to be covered on every path by a membership test of the same key, a length fact, a None test, "
         "iteration over the same table, .get, a dominating store or a matching try/except. This quantifies over all "
         "histories because the facts do not depend on which records were seen. Truthiness of a key is not accepted as "
-        "membership. An index that is a conditional expression is judged per alternative. The facade's line builders index the shared thread / process tables only under a membership test or "
+        "membership. An index that is a conditional expression is judged per alternative. Tuple unpacking is tracked when the length of the unpacked sequence follows from how it is built. The facade's line builders index the shared thread / process tables only under a membership test or "
         "through .get.",
         "Enum(x) for undeclared x and .decode() of invalid text are outside the property's premise; windows are non-empty by "
         "C04 so events[0]/events[-1]/ktraces[0] are not tracked; non-constant indexes (bisect results) are C15's.",
@@ -186,7 +186,7 @@ CLAIMS = {
         "Decides structural clauses: only insert_image writes the parallel lists, at one bisect index, after the duplicate "
         "test; lookup is bisect_right - 1 guarded by >= 0 with identity and base read at the same index; frames are the chained "
         "four words of all nested stack-data records truncated to the first header's count, gated on the flag and the header; "
-        "one callstack per qualifying trace stamped from the START record; no decoder of another record kind returns a subclass of a class feed_generator tests with isinstance. Order independence follows from sortedness "
+        "one callstack per qualifying trace stamped from the START record; no decoder of another record kind returns a subclass of a class feed_generator tests with isinstance; the constructor keeps the image tables it is given as they are. Order independence follows from sortedness "
         "(argued).",
         "bisect semantics trusted.",
         "DESIGN.md §4 C15"),
@@ -212,7 +212,7 @@ CLAIMS = {
         "findings (repair needs Darwin tables); a decoder that newly depends on a host table, or a new table, is a violation, "
         "while moving a use into a helper changes nothing. The host's time zone is treated the same way: every astimezone / "
         "fromtimestamp call must be given a zone that is not None on any path (a setting that starts as None only under an "
-        "established not-None guard). The ctypes types whose width is the host's data model (c_long, c_size_t, ...) count as host sources. Quantifies over all hosts because it removes the dependence rather "
+        "established not-None guard). The ctypes types whose width is the host's data model (c_long, c_size_t, ...) and struct formats in native mode count as host sources. Quantifies over all hosts because it removes the dependence rather "
         "than sampling hosts.",
         "Dynamic access (getattr/importlib) is not modelled - the package uses none; an embedded fixture must be flagged on "
         "every run.",
